@@ -40,6 +40,12 @@ func walkStats(fs fsutil.FS, target string) ([]*types.Stat, error) {
 		if !ok {
 			return fmt.Errorf("no stat for %s", p)
 		}
+		// asking an entry for its info again must give the same stat
+		if fi2, err := d.Info(); err != nil {
+			return err
+		} else if st2, ok := fi2.Sys().(*types.Stat); !ok || !st.EqualVT(st2) {
+			return fmt.Errorf("second Info() of %s differs from the first: %v vs %v", p, fi2.Sys(), st)
+		}
 		if p != st.Path {
 			return fmt.Errorf("callback path %q != stat path %q", p, st.Path)
 		}
